@@ -22,10 +22,11 @@ Record ops (T : Type) : Type := mkOps {
   (* the cache-flush test of add_or_update: incoming identity, entry identity, entry, now *)
   op_should_flush : ident -> ident -> T -> N -> res bool;
   op_shorten : T -> N -> T * N;                    (* set_expire(now + 1000); the timer pushed *)
-  op_ka_ttl : T -> N -> res (option N) }.          (* None: past half life; Some ttl: TTL written *)
+  op_ka_ttl : T -> N -> res (option N);            (* None: past half life; Some ttl: TTL written *)
+  op_ttl : T -> N }.                               (* get_ttl *)
 Arguments op_new {T}. Arguments op_expired {T}. Arguments op_refresh {T}.
 Arguments op_refresh_once {T}. Arguments op_reset {T}. Arguments op_should_flush {T}.
-Arguments op_shorten {T}. Arguments op_ka_ttl {T}.
+Arguments op_shorten {T}. Arguments op_ka_ttl {T}. Arguments op_ttl {T}.
 
 Definition ident_eqb (a b : ident) : bool :=
   entry_eq a b && beq_rdata (i_data a) (i_data b) && (i_if a =? i_if b).
@@ -49,16 +50,18 @@ Fixpoint flush_pass (inc : ident) (now : N) (b : bucket) : res (bucket * list N)
       else Ok (e :: rest', ts)
   end.
 
-(* `find(|r| r.record.matches(incoming))` + reset_ttl on the first match *)
-Fixpoint reset_first (inc : ident) (ttl now : N) (b : bucket) : res (option bucket) :=
+(* `find(|r| r.record.matches(incoming))` + reset_ttl on the first match; the flag says whether
+   the record was on its way out (TTL <= 1) and is revived with a TTL > 1 *)
+Fixpoint reset_first (inc : ident) (ttl now : N) (b : bucket) : res (option (bucket * bool)) :=
   match b with
   | [] => Ok None
   | e :: rest =>
       if matches (c_id e) inc then
-        let? t' := op_reset OP (c_t e) ttl now in Ok (Some (mkC (c_id e) t' :: rest))
+        let revived := revived_cond (op_ttl OP (c_t e)) ttl in
+        let? t' := op_reset OP (c_t e) ttl now in Ok (Some (mkC (c_id e) t' :: rest, revived))
       else
         let? r := reset_first inc ttl now rest in
-        Ok (match r with Some rest' => Some (e :: rest') | None => None end)
+        Ok (match r with Some (rest', rv) => Some (e :: rest', rv) | None => None end)
   end.
 
 Definition is_nil {A} (l : list A) : bool := match l with [] => true | _ => false end.
@@ -72,7 +75,7 @@ Definition add_or_update (b : bucket) (inc : ident) (ttl now : N) (is_for_us : b
     let? (b1, ts) := (if i_flush inc then flush_pass inc now b else Ok (b, [])) in
     let? r := reset_first inc ttl now b1 in
     match r with
-    | Some b2 => Ok (Some (b2, ts, false))
+    | Some (b2, revived) => Ok (Some (b2, ts, revived))
     | None => Ok (Some (mkC inc tnew :: b1, ts, true))
     end.
 
@@ -282,18 +285,28 @@ Definition refresh_host (c : cache) (now : N) (h : bytes) : res (cache * list qd
   let? qs := mk_queries c1 (map (fun id => [(lower h, addr_qtype id)]) (dedup_scoped due)) now in
   Ok (c1, qs).
 
-(* evict_expired_services *)
-Definition evict_instance (now : N) (acc : cache * list bytes) (e : centry) : cache * list bytes :=
+(* evict_expired_services: first every SRV Vec (remembering the instances left without any),
+   then per PTR record of the browsed type: report the instance if its SRV records are gone,
+   evict its expired TXT records; then the expired PTR records themselves; then all TXT Vecs *)
+Fixpoint sweep_srv (c : cache) (now : N) : cache * list bytes :=
+  match c with
+  | [] => ([], [])
+  | (k, b) :: rest =>
+      let (rest', gone) := sweep_srv rest now in
+      if fst k =? 1 then
+        let kept := fst (evict b now) in
+        if is_nil kept then (rest', snd k :: gone) else ((k, kept) :: rest', gone)
+      else ((k, b) :: rest', gone)
+  end.
+
+Definition evict_instance (now : N) (gone : list bytes) (acc : cache * list bytes) (e : centry) : cache * list bytes :=
   match alias_of (c_id e) with
   | None => acc
   | Some inst =>
       let (c, rm) := acc in
-      let bs := get_bucket c (1, inst) in
-      let ks := fst (evict bs now) in
-      let rm' := if negb (is_nil bs) && is_nil ks then rm ++ [inst] else rm in
-      let c1 := set_bucket c (1, inst) ks in
-      let kt := fst (evict (get_bucket c1 (2, inst)) now) in
-      (set_bucket c1 (2, inst) kt, rm')
+      let rm' := if mem inst gone then rm ++ [inst] else rm in
+      let kt := fst (evict (get_bucket c (2, inst)) now) in
+      (set_bucket c (2, inst) kt, rm')
   end.
 
 Fixpoint sweep (kinds : N -> bool) (c : cache) (now : N) : cache :=
@@ -307,17 +320,18 @@ Fixpoint sweep (kinds : N -> bool) (c : cache) (now : N) : cache :=
   end.
 
 Definition evict_services (c : cache) (now : N) (browse : option bytes) : cache * list bytes :=
+  let (c0, gone) := sweep_srv c now in
   let (c2, rm) :=
     match browse with
-    | None => (c, [])
+    | None => (c0, [])
     | Some ty =>
-        let ptrs := get_bucket c (0, ty) in
-        let (c1, rm1) := fold_left (evict_instance now) ptrs (c, []) in
+        let ptrs := get_bucket c0 (0, ty) in
+        let (c1, rm1) := fold_left (evict_instance now gone) ptrs (c0, []) in
         let (kp, xp) := evict ptrs now in
         let rm2 := flat_map (fun e => match alias_of (c_id e) with Some a => [a] | None => [] end) xp in
         (set_bucket c1 (0, ty) kp, dedup_bytes (rm1 ++ rm2))
     end in
-  (sweep (fun k => (k =? 1) || (k =? 2)) c2 now, rm).
+  (sweep (fun k => k =? 2) c2 now, rm).
 
 (* evict_expired_addr; reported: the removed records of the resolved hostname *)
 Definition evict_addrs (c : cache) (now : N) (host : option bytes) : cache * list ident :=
@@ -390,7 +404,7 @@ Definition ka_ttl_trec (t : trec) (now : N) : res (option N) :=
 
 Definition trec_ops : ops trec :=
   mkOps trec new_rec is_expired refresh_maybe refresh_once reset_ttl should_flush_trec
-    (fun t now => (set_expires t (flush_new_expire now), flush_new_expire now)) ka_ttl_trec.
+    (fun t now => (set_expires t (flush_new_expire now), flush_new_expire now)) ka_ttl_trec t_ttl.
 
 (* the property text *)
 Definition should_flush_spec (inc eid : ident) (s : astate) (now : N) : res bool :=
@@ -410,7 +424,8 @@ Definition astate_ops : ops astate :=
     (fun s now => (mkA (a_created s) (a_ttl s) (a_k s) (now + 1000), now + 1000))
     (* listed iff at least half of its lifetime is left: now + 500 ms * ttl <= expires *)
     (fun s now => Ok (if now + 500 * a_ttl s <=? a_expires s
-                      then Some (ka_ttl_spec (a_ttl s) (a_created s) now) else None)).
+                      then Some (ka_ttl_spec (a_ttl s) (a_created s) now) else None))
+    a_ttl.
 
 (* astate_ops with the code's known-answer rule (half life counted from `created` only): used
    to classify a rejected trace as the known finding "shortened shared record still listed" *)
@@ -418,7 +433,8 @@ Definition astate_ops_created_ka : ops astate :=
   mkOps astate (op_new astate_ops) (op_expired astate_ops) (op_refresh astate_ops) (op_refresh_once astate_ops)
     (op_reset astate_ops) (op_should_flush astate_ops) (op_shorten astate_ops)
     (fun s now => Ok (if now <=? a_created s + 500 * a_ttl s
-                      then Some (ka_ttl_spec (a_ttl s) (a_created s) now) else None)).
+                      then Some (ka_ttl_spec (a_ttl s) (a_created s) now) else None))
+    a_ttl.
 Definition spec_run_created_ka (cfg : simcfg) (steps : list (simstep)) : res (list iterobs) :=
   sim_run astate astate_ops_created_ka cfg [] steps.
 
